@@ -1,5 +1,6 @@
 use crate::sup::{Check, Ctx};
 
+pub mod binfile;
 pub mod c01;
 pub mod c02;
 pub mod flow;
